@@ -77,10 +77,26 @@ pub fn style_name(s: &mut Src, name: &str) -> String {
 }
 
 pub fn style_value(s: &mut Src, v: &str) -> String {
-    const PADS: [&str; 6] = [" ", "", "  ", "\t", " \u{a0}", "\u{3000}"];
+    const PADS: [&str; 7] = [" ", "", "  ", "\t", " \u{a0}", "\u{3000}", "\r"];
     let l = PADS[s.weighted(&[20, 4, 2, 2, 1, 1])];
     let r = if s.chance(24) { PADS[s.below(PADS.len())] } else { "" };
     format!("{}{}{}", l, v, r)
+}
+
+/// a comma-separated list of items with optional parameters/weights (Accept, Accept-Encoding, ...)
+pub fn weighted_list(s: &mut Src, items: &[&str], benign_only: bool) -> String {
+    const PARAMS: [&str; 12] = ["", ";q=0.5", "; q=0.5", ";q=1.0", ";q=0", "; q=0", ";q=nan", ";q=inf", ";q=-1", ";q=1e99", ";q=", ";level=1"];
+    let n = s.range(1, 4);
+    let mut v = String::new();
+    for i in 0..n {
+        if i > 0 {
+            v.push_str([", ", ",", " , "][s.weighted(&[6, 2, 1])]);
+        }
+        v.push_str(items[s.below(items.len())]);
+        let pi = if benign_only { s.weighted(&[10, 3, 2, 2]) } else { s.weighted(&[10, 3, 2, 2, 2, 1, 1, 1, 1, 1, 1, 1]) };
+        v.push_str(PARAMS[pi]);
+    }
+    v
 }
 
 fn header_line(s: &mut Src, cfg: &GenCfg, notes: &mut Notes, out: &mut Vec<u8>) {
@@ -96,8 +112,13 @@ fn header_line(s: &mut Src, cfg: &GenCfg, notes: &mut Notes, out: &mut Vec<u8>) 
             ("Content-Type".into(), v[s.weighted(&[8, 4, 2, 1, 1])].to_string())
         }
         2 => {
-            let v = ["application/json", "text/plain", "*/*", "text/plain, application/json", ""];
-            ("Accept".into(), v[s.weighted(&[6, 6, 2, 1, 1])].to_string())
+            if s.chance(50) {
+                notes.add("hdr_accept_list");
+                ("Accept".into(), weighted_list(s, &["text/plain", "application/json", "*/*", "text/html"], false))
+            } else {
+                let v = ["application/json", "text/plain", "*/*", "text/plain, application/json", ""];
+                ("Accept".into(), v[s.weighted(&[6, 6, 2, 1, 1])].to_string())
+            }
         }
         3 => {
             let v = ["chunked", "identity", "gzip", "Chunked", ""];
@@ -106,11 +127,18 @@ fn header_line(s: &mut Src, cfg: &GenCfg, notes: &mut Notes, out: &mut Vec<u8>) 
         4 => ("Server".into(), "whatever".into()),
         5 => {
             let v = ["gzip", "identity", "gzip, deflate", "*", "identity;q=0", "*;q=0", "*;q=0, identity", "", "gzip , identity;q=0"];
-            let i = if cfg.corrupt > 0 && !cfg.error_free { s.weighted(&[10, 4, 3, 2, 1, 1, 1, 1, 1]) } else { s.weighted(&[10, 4, 3, 2]) };
-            if i >= 4 {
-                notes.add("hdr_accept_encoding_edge");
+            if s.chance(70) {
+                notes.add("hdr_accept_encoding_list");
+                // identity may be excluded by the list only when corruptions are allowed
+                let items: &[&str] = if cfg.corrupt > 0 && !cfg.error_free { &["gzip", "identity", "*", "deflate"] } else { &["gzip", "deflate", "br"] };
+                ("Accept-Encoding".into(), weighted_list(s, items, cfg.error_free))
+            } else {
+                let i = if cfg.corrupt > 0 && !cfg.error_free { s.weighted(&[10, 4, 3, 2, 1, 1, 1, 1, 1]) } else { s.weighted(&[10, 4, 3, 2]) };
+                if i >= 4 {
+                    notes.add("hdr_accept_encoding_edge");
+                }
+                ("Accept-Encoding".into(), v[i].to_string())
             }
-            ("Accept-Encoding".into(), v[i].to_string())
         }
         6 => {
             // pad header: total line length (incl CRLF) targeted around the window
